@@ -65,58 +65,25 @@ fn observe(b: &Board) -> Result<Position, String> {
     p.turn = if b.turn() == Color::White { Col::W } else { Col::B };
     p.half = b.half_move_clock() as u32;
     p.full = b.full_move_clock() as u32;
-    // rights and e.p. file: read from the Debug rendering when it has the known shape, otherwise
-    // (the rendering is not part of any property and may change) from the FEN writer's fields
-    let dbg = format!("{b:?}");
-    let mut saw_rights = false;
-    let mut shape_ok = true;
-    for line in dbg.lines() {
-        if let Some(r) = line.strip_prefix("castle rights: ") {
-            saw_rights = true;
-            for ch in r.chars() {
-                match ch {
-                    'K' => p.castle[0] = true,
-                    'Q' => p.castle[1] = true,
-                    'k' => p.castle[2] = true,
-                    'q' => p.castle[3] = true,
-                    '-' => {}
-                    _ => shape_ok = false,
-                }
-            }
-        } else if let Some(e) = line.strip_prefix("en-passant: ") {
-            match "ABCDEFGH".find(e.trim()) {
-                Some(i) if e.trim().len() == 1 => p.ep = Some(i as u8),
-                _ => shape_ok = false,
-            }
+    // rights and e.p. file: from the Debug rendering when that channel calibrates (refmodel::textobs),
+    // otherwise from the FEN writer's fields
+    static OK: std::sync::OnceLock<bool> = std::sync::OnceLock::new();
+    let channel_ok = *OK.get_or_init(|| {
+        refmodel::textobs::calibration_positions().iter().all(|q| match chess_movegen::fen::parse_fen(q.to_fen().as_bytes()) {
+            Ok(b) => refmodel::textobs::from_debug_text(&format!("{b:?}")).ok() == Some((q.castle, q.ep)),
+            Err(_) => false,
+        })
+    });
+    let from_debug = if channel_ok { refmodel::textobs::from_debug_text(&format!("{b:?}")).ok() } else { None };
+    let (castle, ep) = match from_debug {
+        Some(x) => x,
+        None => {
+            DEBUG_FALLBACKS.fetch_add(1, std::sync::atomic::Ordering::Relaxed);
+            refmodel::textobs::from_fen_text(&b.to_string())?
         }
-    }
-    if !saw_rights || !shape_ok {
-        DEBUG_FALLBACKS.fetch_add(1, std::sync::atomic::Ordering::Relaxed);
-        p.castle = [false; 4];
-        p.ep = None;
-        let text = b.to_string();
-        let f: Vec<&str> = text.split_whitespace().collect();
-        if f.len() != 6 {
-            return Err(format!("FEN writer produced {text:?}"));
-        }
-        for ch in f[2].chars() {
-            match ch {
-                'K' => p.castle[0] = true,
-                'Q' => p.castle[1] = true,
-                'k' => p.castle[2] = true,
-                'q' => p.castle[3] = true,
-                '-' => {}
-                _ => return Err(format!("rights field {:?}", f[2])),
-            }
-        }
-        if f[3] != "-" {
-            let c = f[3].as_bytes()[0];
-            if !(b'a'..=b'h').contains(&c) {
-                return Err(format!("e.p. field {:?}", f[3]));
-            }
-            p.ep = Some(c - b'a');
-        }
-    }
+    };
+    p.castle = castle;
+    p.ep = ep;
     Ok(p)
 }
 
